@@ -517,7 +517,7 @@ def run_timer(cfg, calls):
     with installed(clock):
         T = su.Timer(labels=to_arg(cfg["init"], cfg.get("init_tuple", False)), default_label=cfg["dflt"], all_label=cfg["all"])
         for c in calls:
-            clock.now = int(c["t"])
+            clock.now = c["t"] if isinstance(c["t"], float) else int(c["t"])
             arg = to_arg(c.get("arg"), c.get("tuple", False))
             try:
                 if c["op"] == "start":
